@@ -6,7 +6,7 @@ ID=$1; K=$2
 SRC=/tmp/mut/$ID-out
 NOTES=$SRC/NOTES.md; [ "$K" -ge 3 ] && NOTES=$SRC/NOTES2.md; [ "$K" -ge 5 ] && NOTES=$SRC/NOTES3.md; [ "$K" -ge 7 ] && NOTES=$SRC/NOTES4.md; [ "$K" -ge 9 ] && NOTES=$SRC/NOTES5.md
 WT=/tmp/mut/validate-$ID-$K
-export CARGO_NET_OFFLINE=true CARGO_TARGET_DIR=/tmp/mut/validate-target
+export CARGO_NET_OFFLINE=true CARGO_TARGET_DIR=${VALIDATE_TARGET:-/tmp/mut/validate-target}
 [ -f "$SRC/mutant$K.diff" ] && [ -f "$SRC/demo$K.rs" ] || { echo "missing deliverables for $ID $K"; exit 2; }
 git -C /repo worktree add -q --detach "$WT" HEAD || exit 2
 cleanup() { git -C /repo worktree remove --force "$WT" 2>/dev/null; }
